@@ -1074,8 +1074,25 @@ func (ip *Interp) step(f *frame, v ssa.Value) Value {
 			}
 			return b.Elems[idx]
 		}
+		if str, ok := base.(Str); ok {
+			if int(idx) < 0 || int(idx) >= len(str) {
+				panic(&GoPanic{Msg: fmt.Sprintf("index out of range [%d] with length %d", idx, len(str))})
+			}
+			return Int(int64(str[idx]))
+		}
 		undecided("index of %s", Show(base))
 	case *ssa.Lookup:
+		if str, isStr := ip.eval(f, x.X).(Str); isStr {
+			// s[i]: the byte at i
+			i, ok := ip.eval(f, x.Index).(Int)
+			if !ok {
+				undecided("index of a text at an unknown position")
+			}
+			if int(i) < 0 || int(i) >= len(str) {
+				panic(&GoPanic{Msg: fmt.Sprintf("index out of range [%d] with length %d", i, len(str))})
+			}
+			return Int(int64(str[i]))
+		}
 		m, ok := ip.eval(f, x.X).(*MapVal)
 		if !ok {
 			undecided("lookup in %s", Show(ip.eval(f, x.X)))
